@@ -96,6 +96,26 @@ def load_known():
     return known, fixed
 
 
+def default_mem_gb():
+    """memory budget of the query scheduler: 75% of what is available (MemAvailable and, if set, the
+    cgroup limit), at most 48 GB"""
+    avail = 64.0
+    try:
+        for line in open("/proc/meminfo"):
+            if line.startswith("MemAvailable:"):
+                avail = int(line.split()[1]) / (1024.0 * 1024.0)
+    except Exception:
+        pass
+    for f in ("/sys/fs/cgroup/memory.max", "/sys/fs/cgroup/memory/memory.limit_in_bytes"):
+        try:
+            v = open(f).read().strip()
+            if v.isdigit():
+                avail = min(avail, int(v) / float(1 << 30))
+        except Exception:
+            pass
+    return max(4.0, min(48.0, 0.75 * avail))
+
+
 def run_instances(insts, workdir, use_cache=True, verbose=True, witness=True):
     builder = core.Builder(workdir)
     # build sequentially-ish but with a thread pool: goto-cc is cheap
@@ -150,8 +170,8 @@ def run_instances(insts, workdir, use_cache=True, verbose=True, witness=True):
                 ("%dMB" % q.maxrss_mb) if q.maxrss_mb else "",
                 " (cached)" if q.cached else "", q.note[:200]), flush=True)
 
-    core.Scheduler(ncores=int(os.environ.get("VF_CORES", "16")),
-                   mem_gb=float(os.environ.get("VF_MEM_GB", "48"))).run_all(
+    core.Scheduler(ncores=int(os.environ.get("VF_CORES", str(os.cpu_count() or 16))),
+                   mem_gb=float(os.environ.get("VF_MEM_GB", str(default_mem_gb())))).run_all(
         queries, use_cache=use_cache, progress=progress)
     return insts
 
